@@ -24,6 +24,14 @@ type c08KN struct {
 	K string // addressed by field name "K"
 }
 
+// the same two shapes with `omitempty`: an empty field is still a field of the data the caller passed
+type c08KO struct {
+	K string `json:"k,omitempty"`
+}
+type c08KNO struct {
+	K string `json:",omitempty"`
+}
+
 type c08Case struct {
 	Theme, DataYml, FM bool
 	Calls              []string // sequence over: fill-map, fill-struct, fill-ptr, fill-empty, assign, new, load (last load/new decides the rendering template)
@@ -104,6 +112,19 @@ func c08Eval(cs c08Case) *Case {
 			}
 			cur = cur.Fill(d)
 			lay = &layer{v}
+		case "fill-map-blank":
+			// the Fill layer DEFINES the key, with an empty value: it shadows the config files like any other value
+			cur = cur.Fill(map[string]any{key: "", "zz": 3})
+			lay = &layer{""}
+		case "fill-struct-blank":
+			var d any
+			if key == "k" || cs.Tagged {
+				d = c08KO{}
+			} else {
+				d = &c08KNO{}
+			}
+			cur = cur.Fill(d)
+			lay = &layer{""}
 		case "fill-empty":
 			cur = cur.Fill(map[string]any{"zz": 2})
 			lay = nil
@@ -201,7 +222,7 @@ func runC08(r *Run, replay *Case) {
 	}
 	r.Res.Rule = "every presence pattern of {front-matter, Fill/Assign layer, data/*.yml, theme.yml} x key addressed by JSON tag / field name x data given as map, struct, pointer-to-struct x " +
 		"every call history <= N over {fill-map, fill-struct, fill-ptr, fill-empty, assign, new, load} before the page is loaded, and histories with up to 2 calls before and up to 2 calls AFTER loading the page, x four read positions ({{ }}, bound attribute, v-if, Get); non-trivial = at least one source defines the key"
-	calls := []string{"fill-map", "fill-struct", "fill-ptr", "fill-empty", "assign", "new", "load"}
+	calls := []string{"fill-map", "fill-struct", "fill-ptr", "fill-empty", "assign", "new", "load", "fill-map-blank", "fill-struct-blank"}
 	maxLen := 3
 	if r.Thorough() {
 		maxLen = 4
